@@ -508,3 +508,7 @@ def touches_field(ev, field, G=None, alias_cache={}):
         if ce is not None and ce['k'] == 'ref' and ce['name'] in names:
             return True
     return False
+
+
+def build_f_plain(prog, f):
+    return Graph(prog, f)
